@@ -153,13 +153,16 @@ def run(pid, cfg, a, seed, scratch, t_start):
     os.makedirs(out)
     bins = {}
 
-    def need_bin(race=False, fuzz=False):
-        key = ("race" if race else "norm")
+    def need_bin(race=False, fuzz=False, job=None):
+        # a job may name its own package and build tags (e.g. a CLI engine living inside cmd/<cli>)
+        jp = (job or {}).get("pkgdir") or pkgdir
+        jt = (job or {}).get("tags") or tags
+        key = ("race" if race else "norm") + ("" if (jp, jt) == (pkgdir, tags) else "-" + jp.replace("/", "_") + "-" + jt.replace(",", "_"))
         if key not in bins:
             o = os.path.join(b, "bin", "%s-%s.test" % (pid, key))
             if os.path.exists(o):
                 os.remove(o)
-            go_build(b, pkgdir, o, test=True, race=race, tags=tags)
+            go_build(b, jp, o, test=True, race=race, tags=jt)
             bins[key] = o
         return bins[key]
 
@@ -214,7 +217,7 @@ def run(pid, cfg, a, seed, scratch, t_start):
                 shards = job.get("shards", {}).get(tier, 8 if tier == "quick" else 16)
                 shards = max(1, min(shards, n))
                 per = max(1, n // shards)
-                binp = need_bin(race=race)
+                binp = need_bin(race=race, job=job)
                 for i in range(shards):
                     label = "%s-%d" % (name, i)
                     requested[label] = per
@@ -226,7 +229,7 @@ def run(pid, cfg, a, seed, scratch, t_start):
                              timeout + 30)
             elif kind == "plain":
                 shards = job.get("shards", {}).get(tier, 1)
-                binp = need_bin(race=race)
+                binp = need_bin(race=race, job=job)
                 for i in range(shards):
                     label = "%s-%d" % (name, i)
                     args = ["-test.run", "^%s$" % job["test"], "-test.timeout", "%ds" % timeout]
